@@ -118,7 +118,7 @@ fn systematic(i: u64, ev: &mut Ev) -> Outcome {
 }
 
 fn run(r: &Run) {
-    r.prop("trg_cases", r.tier.pick(600_000, 150_000_000), gen::trg_case, case_oracle);
+    r.prop("trg_cases", r.tier.pick(600_000, 60_000_000), gen::trg_case, case_oracle);
     r.enumerate("trg_systematic", SYSTEMATIC, systematic);
 }
 
